@@ -34,3 +34,21 @@ Theorem c19_borrowed_source_untouched : forall e, e_owning e = false -> forall p
   forall t f, dropped_all (c_trace (final_step e (exec e (init progs) sched) t f)) = [].
 Proof. exact borrowed_source_untouched. Qed.
 Print Assumptions c19_borrowed_source_untouched.
+
+(** a clone of a slice / range iterator, taken at any position k of its original and driven by any programs
+    under any schedule: no position twice, nothing below the position it was taken at, index fidelity, chunk
+    contract, end permanence -- by simulation: the clone's run is the tail of a run from position 0 in which
+    one extra thread first consumed the prefix *)
+From OCI.proofs Require Import CloneSim.
+Theorem c19_clone_behaves_like_an_iterator : forall e k progs s c,
+  known_env e -> clonable e -> k < W -> wf_progs progs ->
+  s_c (c_sh c) = k ->
+  nowrap (c_labels (exec e (clone_of c progs) s)) ->
+  let tr := c_trace (exec e (clone_of c progs) s) in
+  chk_C01_nodup e tr = true /\
+  (forall lo cnt, In (lo, cnt) (cov e tr) -> 0 < cnt -> N.min k (e_len e) <= lo) /\
+  chk_C02 e tr = true /\
+  chk_C03 e tr = true /\
+  chk_C05 e tr = true.
+Proof. exact clone_properties. Qed.
+Print Assumptions c19_clone_behaves_like_an_iterator.
